@@ -423,7 +423,7 @@ def _validate_once(spec, cfg, path, timeout, env=None, dfs=False):
 
 
 def validate_trace(run, spec, recs, name, restart=lambda rec: True, describe=None, chunks=None,
-                   timeout=900, max_rejects=12, env=None, cfg=None, dfs=False, prefix=None):
+                   timeout=900, max_rejects=3, env=None, cfg=None, dfs=False, prefix=None):
     """Validate a list of event records against spec (Trace_*.tla).
 
     A rejected line is reported (violation or known finding); validation then resumes at the
